@@ -525,6 +525,7 @@ def check_C05(rep):
     array_stages(rep, "ArrayTrace_C05.cfg", "real Array " + what, "c05")
     quick = rep.tier == "quick"
     map_collide_stage(rep, "MapTrace_C05.cfg", "real OrderedMap " + what, "c05", 255, 3, (1, 40) if quick else (1, 4))
+    map_slab_stage(rep, "MapTrace_C05.cfg", "real OrderedMap " + what, "c05")
     for (T, nkeys, mode, ksz, vs, maxel, num, depth) in ([(256, 40, "spread", 5, "{12, 40, 60, 101}", 107, 14, 150), (256, 24, "clustered", 5, "{12, 40}", 107, 8, 100)] if quick else
                                                          [(256, 40, "spread", 5, "{12, 40, 60, 101}", 107, 300, 400), (256, 24, "clustered", 5, "{12, 40, 90}", 107, 200, 300),
                                                           (512, 60, "spread", 9, "{12, 100, 229}", 235, 150, 500), (1024, 80, "spread", 9, "{12, 200, 485}", 491, 60, 600)]):
@@ -595,6 +596,20 @@ def map_builtin_stage(rep, tcfg, what, prefix, T, nkeys, num, depth, mask=3):
     hist_stage(rep, nm, ["map-run", "-builtinmask", str(mask)], "map", "MapTrace.tla", tcfg, wf, "full", what)
 
 
+def map_slab_stage(rep, tcfg, what, prefix):
+    """Every transition of the slab-level map algorithm (MapSlabTree, layer C) for keys with distinct first-level digests."""
+    quick = rep.tier == "quick"
+    nk, mk, den = (6, 5, 24) if quick else (8, 7, 40)
+    files, n, total = model_histories(rep, "MC_MapSlab.tla", "MC_MapSlab.cfg",
+                                      {"EmitEdges": "TRUE", "Keys": keyset(nk), "MaxKeys": mk},
+                                      "MC_MapSlab T=256 %d keys (<= %d present) x values {12,60,101,140}: all shapes, all ops incl. absent keys" % (nk, mk),
+                                      {"cfg": {"T": 256, "limit": 255}}, lambda ops, key: frac(key + rep.seed, 1, den), prefix + "-mslab", timeout=7200)
+    base = len(rep.distinct)
+    rep.distinct.update(range(base, base + n))
+    hist_stage(rep, prefix + "-map-slab-edges", ["map-run"], "map", "MapTrace.tla", tcfg, files, "edge", what)
+    rep.stages[prefix + "-map-slab-edges"]["selected_of_distinct_histories"] = [n, total]
+
+
 def map_stages(rep, tcfg, what, prefix, collide=True):
     quick = rep.tier == "quick"
     ex = True
@@ -608,7 +623,8 @@ def map_stages(rep, tcfg, what, prefix, collide=True):
     for (T, nkeys, mode, ksz, vs, maxel, num, depth) in walks:
         map_walk_stage(rep, tcfg, what, prefix, T, nkeys, mode, ksz, vs, maxel, num, depth)
     map_builtin_stage(rep, tcfg, what, prefix, 256, 24, 12 if quick else 300, 120 if quick else 300)
-    rep.exhaustive = ex and not quick
+    map_slab_stage(rep, tcfg, what, prefix)
+    rep.exhaustive = False
 
 
 def check_C02(rep):
